@@ -3,18 +3,20 @@ C19 — The local cache is transparent.
 
 Property theorems only (lemmas: `Rustic/Lemmas/Cache.lean`).  The repository is any exact map `be : SpecMap`
 (C20), the cache directory any file-system state: regular files (stale, truncated, longer, foreign, temporary and
-misplaced files included) **and directories planted at arbitrary paths** (`St.dirs` — non-file objects at the entry path of
-an id, which no cache operation ever removes); all statements are for every state / id / content / history, `L` arbitrary.
+misplaced files included) **and non-file objects planted at arbitrary paths**: directories (`St.dirs` — e.g. at the entry
+path of an id; no cache operation ever removes one) and dangling symlinks (`St.cache.links`); all statements are for every
+state / id / content / history, `L` arbitrary.
 
-* `Coh`   — coherence: a properly placed cache file (`cHit`: a regular file, no directory at that path) holds exactly the
-        repository file's bytes.
+* `Coh`   — coherence: a properly placed cache file (`cHit`: a regular file, no directory / symlink at that path) holds
+        exactly the repository file's bytes.
 * (1) `ops_preserve_coherence` — every operation through the cached handle keeps `Coh`, and acts on the repository
         exactly like the bare backend.
 * (2) `coherent_read_equiv` / `coherent_ranged_read_equiv` — under `Coh`, reads through the cache return what the bare
         backend returns.  Per file: `entry_coherent_read_equiv` (only the entry of the file read matters),
         `prefix_entry_ranged_read_equiv` (a *truncated* entry — a prefix of the repository file — never changes a ranged read),
         `dir_entry_read_equiv` / `dir_entry_ranged_read_equiv` (a directory at the entry path: the cache I/O error is
-        swallowed, the answer is the repository's).
+        swallowed, the answer is the repository's), `link_entry_read_equiv` / `link_entry_ranged_read_equiv` (a dangling
+        symlink there: a miss), `link_entry_replaced_by_write`, `tmp_link_removed_by_write`.
 * (3) `transparent` — hence whole histories give identical results and identical repository contents (directories anywhere
         but at the temp path of a file written); `transparent_content_addressed` — under content addressing (a key always
         stores the same bytes) with directories ANYWHERE.
@@ -103,6 +105,13 @@ theorem readPartial_state (s : St) (t : FileType) (id : Name) (cb : Bool) (off l
 theorem refilled_be {s s' : St} {t : FileType} {id : Name} (h : Refilled s s' t id) : s'.be = s.be ∧ s'.dirs = s.dirs := by
   rcases h with h | ⟨d, _, h⟩ <;> subst h <;> exact ⟨rfl, rfl⟩
 
+/-- a read removes dangling symlinks at most -/
+theorem refilled_links {s s' : St} {t : FileType} {id : Name} (h : Refilled s s' t id) {p : Path}
+    (hp : hasLink s'.cache p = true) : hasLink s.cache p = true := by
+  rcases h with h | ⟨d, _, h⟩ <;> subst h
+  · exact hp
+  · exact cWrite_links hp
+
 /-- writing the repository's own bytes into the cache keeps coherence — whether or not the write gets through -/
 theorem refilled_coh {s s' : St} (hc : Coh L s) {t : FileType} {id : Name} (hl : id.length = L)
     (h : Refilled s s' t id) : Coh L s' := by
@@ -112,7 +121,7 @@ theorem refilled_coh {s s' : St} (hc : Coh L s) {t : FileType} {id : Name} (hl :
     intro t' id' d' hl' h'
     simp only at h'
     rw [cHit_cWrite s.dirs s.cache hl hl' d] at h'
-    by_cases e : (t' = t ∧ id' = id) ∧ writes s.dirs t id = true
+    by_cases e : (t' = t ∧ id' = id) ∧ writes s.dirs s.cache t id = true
     · rw [if_pos e] at h'; cases h'; rw [e.1.1, e.1.2]; exact hb
     · rw [if_neg e] at h'; exact hc t' id' d' hl' h'
 
@@ -199,10 +208,41 @@ theorem dir_entry_ranged_read_equiv {s : St} {t : FileType} {id : Name} (hd : ha
 
 /-- quirk (stated, observed on the real code): with a directory at the entry path every read / write of that file
 through the cached handle leaves the temp file `<id>-tmp-` behind (the failed `rename` is not cleaned up). -/
-theorem dir_entry_write_leaves_tmp (dirs : List Path) (c : FS) (t : FileType) (id : Name) (d : Bytes)
-    (hd : hasDir dirs (cpath t id) = true) (ht : hasDir dirs (ctmp t id) = false) :
-    fget (cWrite dirs c t id d) (ctmp t id) = some d := by
-  simp [cWrite, hd, ht, fget_fput_same]
+theorem dir_entry_write_leaves_tmp (dirs : List Path) (c : CD) (t : FileType) (id : Name) (d : Bytes)
+    (hd : hasDir dirs (cpath t id) = true) (ht : tmpBlocked dirs c t id = false) :
+    fget (cWrite dirs c t id d).files (ctmp t id) = some d := by
+  simp only [tmpBlocked, Bool.or_eq_false_iff] at ht
+  simp [cWrite, hd, ht.1, ht.2, fget_fput_same]
+
+/-! ### (2c) a dangling symlink at the entry path
+
+For reads and the listing it is like nothing at all (`NotFound`, not `is_file`); the next cache write or removal of that
+file replaces / removes it.  At the TEMP path it makes one cache write fail, whose clean-up removes it. -/
+
+theorem link_entry_read_equiv {s : St} {t : FileType} {id : Name} (hk : hasLink s.cache (cpath t id) = true) :
+    (readFull s t id).1 = beReadFull s.be t id :=
+  entry_coherent_read_equiv (fun d h => by rw [cHit_of_link _ hk] at h; cases h)
+
+theorem link_entry_ranged_read_equiv {s : St} {t : FileType} {id : Name} (hk : hasLink s.cache (cpath t id) = true)
+    (cb : Bool) (off : Nat) {len : Nat} (hlen : 0 < len) :
+    (readPartial s t id cb off len).1 = beReadPartial s.be t id off len :=
+  prefix_entry_ranged_read_equiv (fun d h => by rw [cHit_of_link _ hk] at h; cases h) cb off hlen
+
+/-- a cache write that gets through replaces a dangling symlink at the entry path by the entry -/
+theorem link_entry_replaced_by_write (dirs : List Path) (c : CD) {t : FileType} {id : Name} (d : Bytes)
+    (hw : writes dirs c t id = true) :
+    cHit dirs (cWrite dirs c t id d) t id = some d ∧ hasLink (cWrite dirs c t id d) (cpath t id) = false := by
+  refine ⟨by rw [cHit_cWrite dirs c (L := id.length) rfl rfl d]; simp [hw], ?_⟩
+  simp only [writes, Bool.and_eq_true, Bool.not_eq_eq_eq_not, Bool.not_true] at hw
+  simp only [cWrite, hw.1.1, hw.1.2, hw.2, Bool.false_eq_true, if_false]
+  exact hasLink_unlink_same c (cpath t id)
+
+/-- a dangling symlink at the temp path: the cache write fails once and its clean-up removes the link -/
+theorem tmp_link_removed_by_write (dirs : List Path) (c : CD) {t : FileType} {id : Name} (d : Bytes)
+    (hd : hasDir dirs (ctmp t id) = false) (hk : hasLink c (ctmp t id) = true) :
+    cWrite dirs c t id d = unlink c (ctmp t id) ∧ tmpBlocked dirs (cWrite dirs c t id d) t id = false := by
+  have e : cWrite dirs c t id d = unlink c (ctmp t id) := by simp [cWrite, hd, hk]
+  exact ⟨e, by rw [e]; simp [tmpBlocked, hd, hasLink_unlink_same]⟩
 
 /-! ### (1) every operation keeps coherence and acts on the repository like the bare backend
 
@@ -217,9 +257,10 @@ def NoEntry (L : Nat) (cbOf : Key → Bool) (s : St) : Prop :=
 def Inv (L : Nat) (cbOf : Key → Bool) (s : St) : Prop := Coh L s ∧ NoEntry L cbOf s
 
 /-- A write-through keeps coherence when the cache write can get through, or there was no entry to go stale, or the
-entry already holds the bytes written: a directory at the TEMP path blocks the update of an existing entry (`hw`). -/
+entry already holds the bytes written: a directory or a dangling symlink at the TEMP path blocks the update of an
+existing entry (`hw`). -/
 theorem coh_cWrite {s : St} (hc : Coh L s) {t : FileType} {id : Name} (hl : id.length = L) {d : Bytes}
-    (hw : hasDir s.dirs (ctmp t id) = true → ∀ d0, cHit s.dirs s.cache t id = some d0 → d0 = d)
+    (hw : tmpBlocked s.dirs s.cache t id = true → ∀ d0, cHit s.dirs s.cache t id = some d0 → d0 = d)
     {be' : SpecMap} (hbe : be' (t, id) = some d) (hoth : ∀ k, k ≠ (t, id) → be' k = s.be k) :
     Coh L { s with be := be', cache := cWrite s.dirs s.cache t id d } := by
   intro t' id' d' hl' h'
@@ -227,19 +268,19 @@ theorem coh_cWrite {s : St} (hc : Coh L s) {t : FileType} {id : Name} (hl : id.l
   rw [cHit_cWrite s.dirs s.cache hl hl' d] at h'
   by_cases e : t' = t ∧ id' = id
   · obtain ⟨e1, e2⟩ := e; subst e1; subst e2
-    by_cases hwr : writes s.dirs t' id' = true
+    by_cases hwr : writes s.dirs s.cache t' id' = true
     · simp [hwr] at h'; subst h'; exact hbe
     · rw [if_neg (fun h => hwr h.2)] at h'
-      by_cases htmp : hasDir s.dirs (ctmp t' id') = true
+      by_cases htmp : tmpBlocked s.dirs s.cache t' id' = true
       · -- the cache write was blocked at the temp path: the old entry stays, and it holds the bytes written
         rw [hw htmp d' h']; exact hbe
       · -- the write did not get through although the temp path is free: a directory sits at the entry path — no entry
         have hdir : hasDir s.dirs (cpath t' id') = true := by
-          have htmp' : hasDir s.dirs (ctmp t' id') = false := by simpa using htmp
-          simp only [writes, htmp', Bool.not_false, Bool.true_and, Bool.not_eq_eq_eq_not, Bool.not_true] at hwr
+          simp only [tmpBlocked, Bool.or_eq_true, not_or, Bool.not_eq_true] at htmp
+          simp only [writes, htmp.1, htmp.2, Bool.not_false, Bool.true_and, Bool.not_eq_eq_eq_not, Bool.not_true] at hwr
           simpa using hwr
         rw [cHit_of_dir _ hdir] at h'; cases h'
-  · have e' : ¬((t' = t ∧ id' = id) ∧ writes s.dirs t id = true) := fun h => e h.1
+  · have e' : ¬((t' = t ∧ id' = id) ∧ writes s.dirs s.cache t id = true) := fun h => e h.1
     rw [if_neg e'] at h'
     rw [hoth (t', id') (fun h => e (by cases h; exact ⟨rfl, rfl⟩))]
     exact hc t' id' d' hl' h'
@@ -252,7 +293,7 @@ theorem noEntry_cWrite {cbOf : Key → Bool} {s : St} (hn : NoEntry L cbOf s) {t
   rw [cHit_cWrite s.dirs s.cache hl hl' d]
   by_cases e : t' = t ∧ id' = id
   · rw [e.1, e.2, hon] at hoff; cases hoff
-  · have e' : ¬((t' = t ∧ id' = id) ∧ writes s.dirs t id = true) := fun h => e h.1
+  · have e' : ¬((t' = t ∧ id' = id) ∧ writes s.dirs s.cache t id = true) := fun h => e h.1
     rw [if_neg e']; exact hn t' id' hl' hoff
 
 theorem refilled_noEntry {cbOf : Key → Bool} {s s' : St} (hn : NoEntry L cbOf s) {t : FileType} {id : Name}
@@ -280,7 +321,7 @@ theorem ranged_read_preserves {cbOf : Key → Bool} {s : St} (hi : Inv L cbOf s)
 
 theorem write_preserves {cbOf : Key → Bool} {s : St} (hi : Inv L cbOf s) (t : FileType) {id : Name}
     (hl : id.length = L) (d : Bytes)
-    (hw : hasDir s.dirs (ctmp t id) = true → ∀ d0, cHit s.dirs s.cache t id = some d0 → d0 = d) :
+    (hw : tmpBlocked s.dirs s.cache t id = true → ∀ d0, cHit s.dirs s.cache t id = some d0 → d0 = d) :
     (writeBytes s t id (cbOf (t, id)) d).be = s.be.write (t, id) d ∧ Inv L cbOf (writeBytes s t id (cbOf (t, id)) d) := by
   refine ⟨rfl, ?_⟩
   unfold writeBytes
@@ -346,16 +387,33 @@ theorem list_preserves {cbOf : Key → Bool} {s : St} (hi : Inv L cbOf s) (t : F
   · simp [hcb]; exact hi
 
 /-- **ops_preserve_coherence**: one step through the cached handle = the same step on the bare backend (same
-observation, same repository), and the invariant is kept.  `dirs`: the directories planted in the cache directory —
-arbitrary, except that none sits at the TEMP path of a file that is written through the handle (it would block the
-update of an existing entry; only an overwrite with other bytes — which content addressing excludes — could then be
-observed; witness in `notes/C19.md`). -/
-def OpOK (L : Nat) (cbOf : Key → Bool) (dirs : List Path) : Op → Prop
+observation, same repository), and the invariant is kept.  `dirs`, `c.links`: the directories and dangling symlinks
+planted in the cache directory — arbitrary, except that none sits at the TEMP path of a file that is written through the
+handle (it would block the update of an existing entry; only an overwrite with other bytes — which content addressing
+excludes, see `transparent_content_addressed` — could then be observed; witness in `notes/C19.md`). -/
+def OpOK (L : Nat) (cbOf : Key → Bool) (dirs : List Path) (c : CD) : Op → Prop
   | .read _ id => id.length = L
   | .readPartial t id cb _ len => id.length = L ∧ cb = cbOf (t, id) ∧ 0 < len
-  | .write t id cb _ => id.length = L ∧ cb = cbOf (t, id) ∧ hasDir dirs (ctmp t id) = false
+  | .write t id cb _ => id.length = L ∧ cb = cbOf (t, id) ∧ tmpBlocked dirs c t id = false
   | .remove t id cb => id.length = L ∧ cb = cbOf (t, id)
   | .list _ _ => True
+
+/-- fewer dangling symlinks: still fine -/
+theorem opOK_mono {cbOf : Key → Bool} {dirs : List Path} {c c' : CD} (h : ∀ p, hasLink c' p = true → hasLink c p = true)
+    {op : Op} (hop : OpOK L cbOf dirs c op) : OpOK L cbOf dirs c' op := by
+  cases op with
+  | write t id cb d =>
+    refine ⟨hop.1, hop.2.1, ?_⟩
+    have h0 := hop.2.2
+    simp only [tmpBlocked, Bool.or_eq_false_iff] at h0 ⊢
+    refine ⟨h0.1, ?_⟩
+    cases hk : hasLink c' (ctmp t id) with
+    | false => rfl
+    | true => rw [h _ hk] at h0; exact absurd h0.2 (by simp)
+  | read t id => exact hop
+  | readPartial t id cb off len => exact hop
+  | remove t id cb => exact hop
+  | list t a => exact hop
 
 /-- no operation of the cached handle creates, removes or replaces a directory of the cache directory -/
 theorem dirs_constant (s : St) (op : Op) : (stepC L s op).2.dirs = s.dirs := by
@@ -366,7 +424,30 @@ theorem dirs_constant (s : St) (op : Op) : (stepC L s op).2.dirs = s.dirs := by
   | remove t id cb => rfl
   | list t a => rfl
 
-theorem ops_preserve_coherence {cbOf : Key → Bool} {s : St} (hi : Inv L cbOf s) (op : Op) (hop : OpOK L cbOf s.dirs op) :
+/-- no operation of the cached handle creates a dangling symlink (a cache write / removal removes one) -/
+theorem links_shrink (s : St) (op : Op) {p : Path} (h : hasLink (stepC L s op).2.cache p = true) :
+    hasLink s.cache p = true := by
+  cases op with
+  | read t id => exact refilled_links (readFull_state s t id).1 h
+  | readPartial t id cb off len => exact refilled_links (readPartial_state s t id cb off len).1 h
+  | write t id cb d =>
+    simp only [stepC, writeBytes] at h
+    split at h
+    · exact cWrite_links h
+    · exact h
+  | remove t id cb =>
+    simp only [stepC, remove] at h
+    split at h
+    · exact cRemove_links h
+    · exact h
+  | list t a =>
+    simp only [stepC, listWithSize] at h
+    split at h
+    · exact removeNotInList_links h
+    · exact h
+
+theorem ops_preserve_coherence {cbOf : Key → Bool} {s : St} (hi : Inv L cbOf s) (op : Op)
+    (hop : OpOK L cbOf s.dirs s.cache op) :
     (stepC L s op).1 = (stepU s.be op).1 ∧ (stepC L s op).2.be = (stepU s.be op).2 ∧ Inv L cbOf (stepC L s op).2 := by
   cases op with
   | read t id =>
@@ -394,9 +475,9 @@ theorem ops_preserve_coherence {cbOf : Key → Bool} {s : St} (hi : Inv L cbOf s
 /-! ### (3) histories -/
 
 /-- **Transparency.** Any history through the cached handle, started in a coherent state — with ANY set of directories
-planted in the cache directory (at entry paths of files written, read, removed or never seen; see `OpOK` for the one
-exception) — yields the same results and the same repository contents as the same history on the bare backend. -/
-theorem transparent {cbOf : Key → Bool} (ops : List Op) (s : St) (hops : ∀ op ∈ ops, OpOK L cbOf s.dirs op)
+and dangling symlinks planted in the cache directory (at entry paths of files written, read, removed or never seen; see
+`OpOK` for the one exception) — yields the same results and the same repository contents as the same history on the bare backend. -/
+theorem transparent {cbOf : Key → Bool} (ops : List Op) (s : St) (hops : ∀ op ∈ ops, OpOK L cbOf s.dirs s.cache op)
     (hi : Inv L cbOf s) :
     (runC L s ops).1 = (runU s.be ops).1 ∧ (runC L s ops).2.be = (runU s.be ops).2 ∧ Inv L cbOf (runC L s ops).2 := by
   induction ops generalizing s with
@@ -404,7 +485,8 @@ theorem transparent {cbOf : Key → Bool} (ops : List Op) (s : St) (hops : ∀ o
   | cons op rest ih =>
     obtain ⟨h1, h2, h3⟩ := ops_preserve_coherence hi op (hops op List.mem_cons_self)
     have hd := dirs_constant (L := L) s op
-    obtain ⟨g1, g2, g3⟩ := ih (stepC L s op).2 (fun o ho => by rw [hd]; exact hops o (List.mem_cons_of_mem _ ho)) h3
+    obtain ⟨g1, g2, g3⟩ := ih (stepC L s op).2
+      (fun o ho => by rw [hd]; exact opOK_mono (fun p hp => links_shrink s op hp) (hops o (List.mem_cons_of_mem _ ho))) h3
     simp only [runC, runU]
     rw [h2] at g1 g2
     exact ⟨by rw [h1, g1], g2, g3⟩
@@ -475,9 +557,10 @@ theorem transparent_content_addressed {cbOf : Key → Bool} {content : Key → B
     rw [h2] at g1 g2
     exact ⟨by rw [h1, g1], g2, g3⟩
 
-/-- An empty cache directory — and one that holds nothing but directories — is coherent for every repository. -/
-theorem empty_cache_inv (cbOf : Key → Bool) (be : SpecMap) (dirs : List Path) :
-    Inv L cbOf { be := be, cache := [], dirs := dirs } :=
+/-- An empty cache directory — and one that holds nothing but directories and dangling symlinks — is coherent for every
+repository. -/
+theorem empty_cache_inv (cbOf : Key → Bool) (be : SpecMap) (dirs links : List Path) :
+    Inv L cbOf { be := be, cache := { files := [], links := links }, dirs := dirs } :=
   ⟨fun _ _ _ _ h => by simp [cHit, fget] at h, fun _ _ _ _ => by simp [cHit, fget]⟩
 
 /-! ### (4) a listing restores coherence from an arbitrary cache directory -/
@@ -548,15 +631,17 @@ theorem stale_cache_read_keeps_repository (s : St) (t : FileType) (answer : List
 /-! ### (5) truncated entries -/
 
 /-- A ranged read that a (truncated) cache entry cannot serve is answered from the repository, and the entry is
-replaced by the repository's bytes (when no directory blocks the temp path). -/
+replaced by the repository's bytes (when nothing blocks the temp path). -/
 theorem truncated_entry_falls_through (s : St) (t : FileType) {id : Name} (hl : id.length = L) (cb : Bool)
     (hon : (cb || isCacheable t) = true) {d' d : Bytes} (off len : Nat)
-    (hc : cHit s.dirs s.cache t id = some d') (hb : s.be (t, id) = some d) (hw : hasDir s.dirs (ctmp t id) = false)
+    (hc : cHit s.dirs s.cache t id = some d') (hb : s.be (t, id) = some d) (hw : tmpBlocked s.dirs s.cache t id = false)
     (hlen : 0 < len) (hshort : d'.length < off + len) (hin : off + len ≤ d.length) :
     (readPartial s t id cb off len).1 = .ok ((d.drop off).take len) ∧
     cHit (readPartial s t id cb off len).2.dirs (readPartial s t id cb off len).2.cache t id = some d := by
   have hr : ¬ (off + len ≤ d'.length) := by omega
-  have hwr : writes s.dirs t id = true := by simp [writes, hw, (cHit_some hc).1]
+  have hwr : writes s.dirs s.cache t id = true := by
+    simp only [tmpBlocked, Bool.or_eq_false_iff] at hw
+    simp [writes, hw.1, hw.2, (cHit_some hc).1]
   unfold readPartial
   simp only [hon, if_true, cReadPartial_eq _ _ _ _ _ hlen, hc, hr, if_false, readPartialThrough, hb, hin]
   exact ⟨trivial, by rw [cHit_cWrite s.dirs s.cache hl hl d]; simp [hwr]⟩
@@ -580,32 +665,44 @@ them is an entry any more, the misplaced and the temp file are left alone (they 
 example :
     let c : FS := [([nSnapshots, ['a', 'a'], idB], [9]), ([nSnapshots, ['a', 'a'], idA], [1, 2]),
                    ([nSnapshots, idB], [7]), ([nSnapshots, ['a', 'a'], idA ++ tmpSuffix], [5])]
-    let s' := listWithSize 64 { be := be1, cache := c } .snapshot [(idA, 4)]
-    s'.cache = [([nSnapshots, idB], [7]), ([nSnapshots, ['a', 'a'], idA ++ tmpSuffix], [5])] := by decide
+    let s' := listWithSize 64 { be := be1, cache := { files := c } } .snapshot [(idA, 4)]
+    s'.cache.files = [([nSnapshots, idB], [7]), ([nSnapshots, ['a', 'a'], idA ++ tmpSuffix], [5])] := by decide
 /-- a truncated entry: ranged read beyond it falls through and repairs it; `read_full` before that serves it -/
 example :
-    let s : St := { be := be1, cache := [([nSnapshots, ['a', 'a'], idA], [1, 2])] }
+    let s : St := { be := be1, cache := { files := [([nSnapshots, ['a', 'a'], idA], [1, 2])] } }
     (readFull s .snapshot idA).1 = .ok [1, 2] ∧
     (readPartial s .snapshot idA false 1 3).1 = .ok [2, 3, 4] ∧
     cHit [] (readPartial s .snapshot idA false 1 3).2.cache .snapshot idA = some [1, 2, 3, 4] := by decide
 /-- the repaired code: a range past the end of the file is an error through the cache as well -/
-example : (readPartial { be := be1, cache := [] } .snapshot idA false 2 3).1 = .err := by decide
+example : (readPartial { be := be1, cache := { files := [] } } .snapshot idA false 2 3).1 = .err := by decide
 /-- a DIRECTORY at the entry path of `idA` (replayed on the real code: `corpus/C19/witnesses.ops`): whole and ranged reads
 are answered from the repository, each leaves the temp file behind, the listing and a removal leave everything as it
 is, an empty range is "served" by the directory -/
 example :
-    let s : St := { be := be1, cache := [], dirs := [cpath .snapshot idA] }
+    let s : St := { be := be1, cache := { files := [] }, dirs := [cpath .snapshot idA] }
     (readFull s .snapshot idA).1 = .ok [1, 2, 3, 4] ∧
-    (readFull s .snapshot idA).2.cache = [(ctmp .snapshot idA, [1, 2, 3, 4])] ∧
+    (readFull s .snapshot idA).2.cache.files = [(ctmp .snapshot idA, [1, 2, 3, 4])] ∧
     (readPartial s .snapshot idA false 1 2).1 = .ok [2, 3] ∧
     (readPartial s .snapshot idA false 2 3).1 = .err ∧
     (readPartial s .snapshot idA false 9 0).1 = .ok [] ∧
-    (listWithSize 64 (readFull s .snapshot idA).2 .snapshot [(idA, 4)]).cache = [(ctmp .snapshot idA, [1, 2, 3, 4])] ∧
-    (remove (readFull s .snapshot idA).2 .snapshot idA false).cache = [(ctmp .snapshot idA, [1, 2, 3, 4])] := by decide
+    (listWithSize 64 (readFull s .snapshot idA).2 .snapshot [(idA, 4)]).cache.files = [(ctmp .snapshot idA, [1, 2, 3, 4])] ∧
+    (remove (readFull s .snapshot idA).2 .snapshot idA false).cache.files = [(ctmp .snapshot idA, [1, 2, 3, 4])] := by decide
+/-- a DANGLING SYMLINK at the entry path of `idA` (replayed on the real code): a miss; the read refills the cache, which
+replaces the link by the entry; at the temp path: one cache write fails and removes the link, the next one works -/
+example :
+    let s : St := { be := be1, cache := { files := [], links := [cpath .snapshot idA] } }
+    (readFull s .snapshot idA).1 = .ok [1, 2, 3, 4] ∧
+    (readFull s .snapshot idA).2.cache.files = [(cpath .snapshot idA, [1, 2, 3, 4])] ∧
+    (readFull s .snapshot idA).2.cache.links = [] ∧
+    (listWithSize 64 s .snapshot [(idA, 4)]).cache.links = [cpath .snapshot idA] := by decide
+example :
+    let s : St := { be := be1, cache := { files := [], links := [ctmp .snapshot idA] } }
+    (readFull s .snapshot idA).2.cache.files = [] ∧ (readFull s .snapshot idA).2.cache.links = [] ∧
+    (readFull (readFull s .snapshot idA).2 .snapshot idA).2.cache.files = [(cpath .snapshot idA, [1, 2, 3, 4])] := by decide
 /-- the exception of `OpOK`: a directory at the TEMP path blocks the cache write; an entry that exists is then not
 updated by an overwrite with other bytes (which content addressing excludes) and the cached read differs -/
 example :
-    let s : St := { be := be1, cache := [(cpath .snapshot idA, [1, 2, 3, 4])], dirs := [ctmp .snapshot idA] }
+    let s : St := { be := be1, cache := { files := [(cpath .snapshot idA, [1, 2, 3, 4])] }, dirs := [ctmp .snapshot idA] }
     (readFull (writeBytes s .snapshot idA false [7]) .snapshot idA).1 = .ok [1, 2, 3, 4] ∧
     beReadFull (writeBytes s .snapshot idA false [7]).be .snapshot idA = .ok [7] := by decide
 
